@@ -275,7 +275,7 @@ def run(ctx):
     mc_cfg = {"C01": "MC_Engine.cfg", "C02": "MC_EngineV.cfg", "C08": "MC_Engine.cfg", "C12": "MC_Engine.cfg"}[pid]
     if not quick and pid == "C01":
         mc_cfg = "MC_Engine_big.cfg"
-    r = ctx.tlc_or_undecided("Engine", mc_cfg, timeout=1500, coverage=not quick)
+    r = ctx.tlc_or_undecided("Engine", mc_cfg, timeout=3000, coverage=(not quick and "big" not in mc_cfg))
     if r.violated:
         raise Undecided("M1: Engine.tla violates %s under %s: the specification (design layer) needs attention\n%s" % (r.violated, mc_cfg, r.out[-2500:]))
     ctx.log("M1 %s: %d generated, %d distinct, depth %d (%.0fs)" % (mc_cfg, r.generated, r.distinct, r.depth, r.wall))
